@@ -181,18 +181,21 @@ Definition c_step (s : cstore) (o : regop) : cstore * regres :=
     let k := eui_str e in
     (s, RDowns (map (dec_down e) (firstn 100 (c_sort_by cw_created (filter (fun x => bytes_eqb (cw_eui x) k) (t_downs s))))))
   | Reopen => (s, ROk)    (* the file holds the tables; nothing lives in the process *)
-  (* UPDATE lora_devices SET fcnt_up = $1, key_warning = $2 WHERE eui = $3 AND fcnt_up <= $4; no row affected: ErrNotFound *)
-  | AdvanceFCntUp e a nf kw =>
+  (* UPDATE lora_devices SET fcnt_up = $1, key_warning = $2 WHERE eui = $3 AND fcnt_up <= $4 AND nwks_key = $5;
+     no row affected: ErrNotFound *)
+  | AdvanceFCntUp e key a nf kw =>
     let k := eui_to_int64 e in
-    let hit x := (cd_eui x =? k)%Z && (cd_fup x <=? a) in
+    let hit x := (cd_eui x =? k)%Z && (cd_fup x <=? a) && bytes_eqb (cd_nwkskey x) (key_str key) in
     if existsb hit (t_devs s)
     then (st_devs s (map (fun x => if hit x then row_upd_state x nf (cd_fdn x) kw else x) (t_devs s)), ROk) else (s, RNotFound)
-  (* UPDATE lora_devices SET fcnt_dn = (fcnt_dn + 1) % 65536 WHERE eui = $1 RETURNING fcnt_dn; the caller gets uint16(returned - 1) *)
-  | NextFCntDn e =>
+  (* UPDATE lora_devices SET fcnt_dn = (fcnt_dn + 1) % 65536 WHERE eui = $1 AND nwks_key = $2 RETURNING fcnt_dn;
+     the caller gets uint16(returned - 1) *)
+  | NextFCntDn e key =>
     let k := eui_to_int64 e in
-    match find (fun x => (cd_eui x =? k)%Z) (t_devs s) with
+    let hit x := (cd_eui x =? k)%Z && bytes_eqb (cd_nwkskey x) (key_str key) in
+    match find hit (t_devs s) with
     | Some r =>
-      (st_devs s (map (fun x => if (cd_eui x =? k)%Z then row_upd_state x (cd_fup x) ((cd_fdn x + 1) mod 65536) (cd_kw x) else x) (t_devs s)),
+      (st_devs s (map (fun x => if hit x then row_upd_state x (cd_fup x) ((cd_fdn x + 1) mod 65536) (cd_kw x) else x) (t_devs s)),
        RCnt ((((cd_fdn r + 1) mod 65536) + 65535) mod 65536))
     | None => (s, RNotFound)
     end
